@@ -112,4 +112,32 @@ def jobs(tier, seed):
                      replaced=["registry lookup (contract)", "ops->is_compatible_with (interface contract)", "crc32 / crc32_alt (uninterpreted)"],
                      repo_src=[EC, HELP], remove_bodies=CUT, harness=["harness/fe_contract.c"] + FE_H, defines={"K": k, "M": m, "W": w, "LEN": ln, "MODE": 4, "NUMFRAG": "0"},
                      unwind=180, case={"k": k, "m": m, "w": w, "len": ln}, expect=["C12: every fragment an instance has just encoded"], assumptions=A_FE))
+    # ---- size queries (C08): case split over the divisor
+    ks = [1, 2, 3, 5, 7, 10, 16, 31, 32] if tier == "quick" else list(range(1, 33))
+    for k in ks:
+        for w in (8, 16, 32):
+            J.append(Job("fe.sizes@k%d_w%d" % (k, w), group="fe.sizes", props=["C08", "C13"], layer="L4", strength="P#" if tier == "thorough" else "B",
+                         bound="" if tier == "thorough" else "quick tier: k in %s x w in {8,16,32}; thorough: every k in 1..32" % ks,
+                         title="size queries == ceil(len/(k*w/8))*(k*w/8) etc., data_len symbolic in [0,2^20]; unknown descriptor => negative",
+                         functions=["liberasurecode_get_aligned_data_size", "liberasurecode_get_minimum_encode_size", "liberasurecode_get_fragment_size", "get_aligned_data_size"],
+                         replaced=["registry lookup (contract)", "ops->element_size / get_backend_metadata_size (interface contract)"],
+                         repo_src=[EC, HELP], remove_bodies=CUT, harness=["harness/fe_misc.c"] + FE_H, defines={"MODE": 1, "K": k, "W": w},
+                         unwind=10, case={"k": k, "w": w}, expect=["C08: aligned data size"], timeout=600))
+    J.append(Job("fe.fragments_needed", props=["C06", "C13", "C17"], layer="L4", strength="Pinf",
+                 title="liberasurecode_fragments_needed: refusals; the backend's return code is propagated unchanged; backend not called on invalid arguments",
+                 functions=["liberasurecode_fragments_needed"], replaced=["registry lookup (contract)", "ops->fragments_needed (interface contract, any return code)"],
+                 repo_src=[EC, HELP], remove_bodies=CUT, harness=["harness/fe_misc.c"] + FE_H, defines={"MODE": 2}, unwind=10, expect=["C06/C17: the backend's answer"]))
+    nl = 4 if tier == "thorough" else 3
+    J.append(Job("reg.step", props=["C14"], layer="L4", strength="B", bound="registry with <= %d live instances (arbitrary well-formed pre-state, arbitrary counter: history length unbounded by induction)" % nl,
+                 title="registry step: register/alloc_desc/get_by_desc/unregister from an arbitrary well-formed registry and counter (INT_MAX, negatives): fresh positive descriptor, lookup exact, dead after unregister, others untouched",
+                 functions=["liberasurecode_backend_instance_register", "liberasurecode_backend_alloc_desc", "liberasurecode_backend_instance_get_by_desc", "liberasurecode_backend_instance_unregister"],
+                 replaced=["pthread rwlock (succeeds; sequential)"], repo_src=[EC], remove_bodies=["liberasurecode_init", "liberasurecode_exit"],
+                 harness=["harness/fe_misc.c"] + FE_H, defines={"MODE": 3, "NL": nl}, unwind=nl + 4, expect=["C14: a new descriptor is positive", "C14: a descriptor is dead after unregister"]))
+    J.append(Job("reg.create_destroy", props=["C13", "C14", "C16", "C17"], layer="L4", strength="B", bound="registry with <= %d other live instances; shape box k,m in [-1,33]" % nl,
+                 title="liberasurecode_instance_create/_destroy: refusals (NULL args, backend id, k<1, m<0, k+m>32), init/loader failure => error with nothing left behind or leaked, success => fresh live descriptor; destroy: exit+dlclose once, dead afterwards, double destroy refused",
+                 functions=["liberasurecode_instance_create", "liberasurecode_instance_destroy", "liberasurecode_backend_open", "liberasurecode_backend_close",
+                            "liberasurecode_backend_instance_register", "liberasurecode_backend_alloc_desc", "liberasurecode_backend_instance_get_by_desc", "liberasurecode_backend_instance_unregister"],
+                 replaced=["ops->init / exit (interface contract; init may fail)", "dlopen/dlclose/dlerror (assumed loader contract; dlopen may fail)", "pthread rwlock"],
+                 repo_src=[EC], remove_bodies=["liberasurecode_init", "liberasurecode_exit"], harness=["harness/fe_misc.c"] + FE_H,
+                 defines={"MODE": 4, "NL": nl}, unwind=12, loop_bounds=[(r"SLIST_FOREACH|for \(;;\)|SLIST_REMOVE", nl + 3)], leak=True, mem_gb=16, expect=["C13: NULL args, unknown backend id", "C14/C17: a failed create"]))
     return J
